@@ -239,7 +239,38 @@ def idiom_enc_error(rng):
     return print_char(rng.choice([72, 0x1F600]), rng.choice([1, 2])) + push_seq(bad) + [(1, 1, rng.choice([1, 2]), None)]
 
 
-IDIOMS = [idiom_backjump_stack, idiom_input_loop, idiom_forward_jump, idiom_enc_error, idiom_print, idiom_loop, idiom_read, idiom_fraction, idiom_exit, idiom_multi, idiom_label_return, idiom_stacks]
+def idiom_nan_inside(rng):
+    """a NaN lying INSIDE a non-empty stack (reciprocal of zero pushed back, or an under-full sum landing on values),
+    then a multi-operand sum/product that meets the NaN before its last pop, then the leftovers are printed
+    (seeded change C01-add-stops-at-nan: every operand must still be popped)"""
+    vals = [rng.choice([65, 66, 67, 48, 10]) for _ in range(rng.randint(1, 3))]
+    p = []
+    for v in vals: p += push_seq(v)
+    r = rng.random()
+    if r < 0.5: p += [(0, 1, 0, None), (4, 1, rng.choice([3, 4, 5]), None)]            # 0, 1/0 -> NaN pushed back
+    elif r < 0.8: p += [(5, 1, 4, None), (1, 2, 3, None), (5, 1, 3, None)]               # under-full sum on stack 4 lands on stack 3
+    else: p += [(0, 1, 0, None), (4, 1, 4, None), (5, 2, 3, None)]                       # NaN duplicated
+    p += [(rng.choice([1, 2]), rng.choice([2, 2, 3]), rng.choice([3, 4, 1]), None)]
+    for _ in range(rng.randint(1, 3)): p += [(1, 1, rng.choice([1, 1, 2]), None)]
+    return p
+
+
+IDIOMS = [idiom_nan_inside, idiom_backjump_stack, idiom_input_loop, idiom_forward_jump, idiom_enc_error, idiom_print, idiom_loop, idiom_read, idiom_fraction, idiom_exit, idiom_multi, idiom_label_return, idiom_stacks]
+
+
+def idiom_return_after_stop(rng):
+    """a jump taken once (so a return point exists), then something that stops level-2 pre-execution (a read from
+    standard input, or an iteration count beyond the budget), then the return heart — the return point has to
+    survive the hand-over from pre-execution to the run (seeded change C02-clone-loses-return-point)"""
+    h = rng.randint(2, 12); a = rng.randint(4, 9)
+    p = [(0, 1, 3, None), (0, 1, a, None), (0, 1, 1, None), (1, 1, 3, leaf(h)), (1, 1, 3, (0, leaf(h), None))]
+    if rng.random() < 0.7:
+        p += [(5, 1, 0, None), (1, 1, 3, None), (5, 1, 3, None), (1, 1, 1, None)]
+    else:
+        p += idiom_loop(rng, rng.choice([101, 102, 150]))
+    p += [(1, 1, 3, (1, leaf(13), None))]
+    if rng.random() < 0.5: p += [(1, 1, 1, None)]
+    return p
 
 
 def rand_cmd(rng, hearts, grammar=True):
